@@ -33,12 +33,15 @@ QuickGenConfs ==
   \cup {Conf("bput", TRUE, "up", FALSE, FALSE, "E", "https"), Conf("mput", TRUE, "tok", FALSE, FALSE, "E", "https"),
         Conf("copy", TRUE, "up", FALSE, FALSE, "E", "https")}
   \cup {Conf("ext", TRUE, "up", FALSE, FALSE, e[1], e[2]) : e \in ExtURLs}
-ThoroughGenConfs ==
-  PullConfs({"bget", "mget", "bhead"}, {"up", "uptok", "tok"})
-  \cup {Conf("two", TRUE, c, FALSE, ra, "E", "https") : c \in {"up", "tok"}, ra \in Bools}
-  \cup PushConfs({"bput", "mput", "copy"}, {"up", "tok"})
-  \cup ExtConfs({"ext"}, {"up", "tok"})
-  \cup {Conf("copyext", TRUE, "up", FALSE, FALSE, e[1], e[2]) : e \in ExtURLs}
+MidGenConfs ==
+  {Conf(op, t, c, m, FALSE, "E", "https") : op \in {"bget", "mhead"}, t \in Bools, c \in {"tok", "uptok"}, m \in Bools}
+  \cup {Conf("two", TRUE, "tok", FALSE, ra, "E", "https") : ra \in Bools}
+  \cup {Conf("bput", TRUE, "tok", FALSE, FALSE, "E", "https"), Conf("copy", TRUE, "tok", FALSE, FALSE, "E", "https"),
+        Conf("bhead", TRUE, "up", TRUE, TRUE, "E", "https")}
+  \cup {Conf("ext", TRUE, "tok", FALSE, FALSE, e[1], e[2]) : e \in ExtURLs}
+DeepConfs ==
+  {Conf("bget", TRUE, "up", FALSE, FALSE, "E", "https"), Conf("ext", TRUE, "up", FALSE, FALSE, "E", "https"),
+   Conf("copy", TRUE, "up", FALSE, FALSE, "E", "https")}
 QuickChal == {"none", "b1", "t", "bt"}
 QuickFaults == {"nf", "err"}
 AllChal == {"none", "mal", "uns", "bnr", "b1", "b2", "t", "bt"}
